@@ -231,7 +231,7 @@ def body_facts(tree):
     refused = any(isinstance(n, ast.Raise) for s in (final_else or []) for n in ast.walk(s))
     # tuple assignment: is there a loop that both translates a right-hand side and binds a target?
     loops = [n for s in branches["Assign"] for n in ast.walk(s) if isinstance(n, ast.For)]
-    binding = [l for l in loops if _binds_symbol(l)]
+    binding = [l for l in loops if _binds_symbol(l) and ast.unparse(l.iter) != "node.targets"]  # (the chained-assignment loop is read by assign_facts)
     if len(binding) != 1:
         raise Unsupported("_handle_fn_body: tuple assignment shape")
     tuple_sim = not _calls_handle_expr(binding[0])
@@ -239,11 +239,109 @@ def body_facts(tree):
         # then the right-hand sides must be translated somewhere before that loop
         if sum(_calls_handle_expr(s) for s in branches["Assign"]) == 0:
             raise Unsupported("_handle_fn_body: tuple assignment never translates the right-hand sides")
-    return tuple_sim, refused, branch_facts(tree, branches["If"])
+    stmt_kinds = [k for k in kinds if k != "<harmless>"] + (["Expr", "Pass"] if "<harmless>" in kinds else [])
+    return tuple_sim, refused, branch_facts(tree, branches["If"]), assign_facts(branches["Assign"]), import_facts(branches["ImportFrom"]), stmt_kinds
 
 
 def _attr_path(n) -> str:
     return ast.unparse(n)
+
+
+def _method(tree, cls: str, name: str) -> ast.FunctionDef:
+    for n in tree.body:
+        if isinstance(n, ast.ClassDef) and n.name == cls:
+            for m in n.body:
+                if isinstance(m, ast.FunctionDef) and m.name == name:
+                    return m
+    raise Unsupported(f"{cls}.{name} not found")
+
+
+def _branch_keywords(tree) -> dict[str, str]:
+    """`Context.branch`: `return Context(symbols=…, modules=…, fns=…, …)` -> keyword -> source text"""
+    m = _method(tree, "Context", "branch")
+    rets = [n for n in m.body if isinstance(n, ast.Return)]
+    if len(rets) != 1 or not (isinstance(rets[0].value, ast.Call) and _is_name(rets[0].value.func, "Context")
+                              and not rets[0].value.args):
+        raise Unsupported("Context.branch: shape")
+    return {k.arg: ast.unparse(k.value) for k in rets[0].value.keywords}
+
+
+def assign_facts(assign_branch) -> tuple[bool, bool]:
+    """(chained assignment binds every target?, `a, b = e` with e not a tuple display refused?)"""
+    text = "\n".join(ast.unparse(x) for x in assign_branch)
+    chain = None
+    for st in assign_branch:
+        for n in ast.walk(st):
+            if isinstance(n, ast.If) and ast.unparse(n.test) == "len(node.targets) > 1":
+                loops = [l for b in n.body for l in ast.walk(b) if isinstance(l, ast.For) and ast.unparse(l.iter) == "node.targets"]
+                if len(loops) == 1 and _binds_symbol(loops[0]) and not _calls_handle_expr(loops[0]) \
+                        and sum(_calls_handle_expr(b) for b in n.body) == 1:
+                    chain = True
+                else:
+                    raise Unsupported("_handle_fn_body: chained assignment shape")
+    if chain is None:
+        if "len(node.targets)" in text:
+            raise Unsupported("_handle_fn_body: node.targets is counted in an unknown way")
+        chain = False
+    unpack = None
+    for st in assign_branch:
+        for n in ast.walk(st):
+            if isinstance(n, ast.If) and ast.unparse(n.test) == "isinstance(node.value, ast.Tuple)":
+                if any(isinstance(x, ast.Raise) for b in n.orelse for x in ast.walk(b)):
+                    unpack = True
+                elif [ast.unparse(b) for b in n.orelse] == ["value = _handle_expr(node.value, ctx)"]:
+                    unpack = False
+                else:
+                    raise Unsupported("_handle_fn_body: iterable unpacking shape")
+    if unpack is None:
+        raise Unsupported("_handle_fn_body: tuple assignment test not found")
+    return chain, unpack
+
+
+def import_facts(importfrom_branch) -> bool:
+    """function-local `from m import x`: ints bound like floats and other objects refused (True) / both skipped (False)"""
+    chains = [n for st in importfrom_branch for n in ast.walk(st) if isinstance(n, ast.If) and "isinstance(el" in ast.unparse(n.test)
+              and "float" in ast.unparse(n.test)]
+    if len(chains) != 1:
+        raise Unsupported("_handle_fn_body: ImportFrom element dispatch not found")
+    node = chains[0]
+    first = ast.unparse(node.test)
+    tests = []
+    while True:
+        tests.append(ast.unparse(node.test))
+        if len(node.orelse) == 1 and isinstance(node.orelse[0], ast.If):
+            node = node.orelse[0]
+        else:
+            final = node.orelse
+            break
+    if tests[1:] != ["callable(el)", "isinstance(el, ModuleType)"]:
+        raise Unsupported(f"_handle_fn_body: ImportFrom dispatch {tests}")
+    raises = any(isinstance(x, ast.Raise) for b in final for x in ast.walk(b))
+    if first == "isinstance(el, (int, float)) and (not isinstance(el, bool))" and raises:
+        return True
+    if first == "isinstance(el, float)" and not raises:
+        return False
+    raise Unsupported(f"_handle_fn_body: ImportFrom dispatch {first!r}, else raises={raises}")
+
+
+def sig_strict(tree) -> bool:
+    fn = _fn(tree, "fn_to_sympy")
+    asg = [n for n in ast.walk(fn) if isinstance(n, ast.Assign) and _is_name(n.targets[0], "fn_args")]
+    if len(asg) != 1:
+        raise Unsupported("fn_to_sympy: fn_args")
+    v = ast.unparse(asg[0].value)
+    if v == "[str(arg.arg) for arg in fn_def.args.args]":
+        return False
+    if v == "_positional_params(fn_def)":
+        pp = _fn(tree, "_positional_params")
+        ifs = [n for n in pp.body if isinstance(n, ast.If)]
+        rets = [n for n in pp.body if isinstance(n, ast.Return)]
+        if (len(ifs) == 1 and ast.unparse(ifs[0].test) == "args.vararg or args.kwonlyargs or args.kwarg"
+                and any(isinstance(x, ast.Raise) for x in ifs[0].body) and len(rets) == 1
+                and ast.unparse(rets[0].value) == "[str(arg.arg) for arg in [*args.posonlyargs, *args.args]]"):
+            return True
+        raise Unsupported("_positional_params: shape")
+    raise Unsupported(f"fn_to_sympy: fn_args = {v}")
 
 
 def branch_facts(tree, if_branch):
@@ -257,9 +355,19 @@ def branch_facts(tree, if_branch):
         raise Unsupported("_handle_fn_body: recursive calls on node.body / node.orelse not found")
     ctxs = {_attr_path(c.args[1]) for c in rec}
     if ctxs == {"ctx"}:
-        copies = False
+        copies, imports_copied = False, False
     elif ctxs == {"ctx.updated(symbols=dict(ctx.symbols))"}:
-        copies = True
+        # Context.updated passes modules / fns on as they are: only the symbol table is copied
+        copies, imports_copied = True, False
+        upd = ast.unparse(_method(tree, "Context", "updated"))
+        if "modules=self.modules" not in upd or "fns=self.fns" not in upd:
+            raise Unsupported("Context.updated: shape")
+    elif ctxs == {"ctx.branch()"}:
+        kws = _branch_keywords(tree)
+        copies = kws.get("symbols") == "dict(self.symbols)"
+        imports_copied = kws.get("modules") == "dict(self.modules)" and kws.get("fns") == "dict(self.fns)"
+        if not copies or not (imports_copied or (kws.get("modules") == "self.modules" and kws.get("fns") == "self.fns")):
+            raise Unsupported(f"Context.branch: {kws}")
     else:
         raise Unsupported(f"_handle_fn_body: branch contexts {sorted(ctxs)}")
     # 2. _check_branch(node.body, remaining_body) and _check_branch(node.orelse, remaining_body)
@@ -301,7 +409,92 @@ def branch_facts(tree, if_branch):
         ht = ast.unparse(_fn(tree, "_handle_test"))
         if "raise" not in ht or "not isinstance(condition, sympy.Symbol)" not in ht or "Boolean" not in ht:
             raise Unsupported("_handle_test: shape")
-    return copies, checked, boolean
+    return copies, checked, boolean, imports_copied
+
+
+CB_ATOMS = {
+    "_always_returns(branch)": "alwaysReturns",
+    "plain": "plain",
+    "not rest": "restEmpty",
+    "len(rest) == 1": "restLen1",
+    "isinstance((ret := rest[0]), ast.Return)": "rest0Return",
+    "isinstance(ret.value, ast.Name)": "retValueName",
+    "cast(ast.Name, cast(ast.Assign, branch[-1]).targets[0]).id == ret.value.id": "lastTargetIsRet",
+}
+PLAIN_DEF = ("bool(branch) and all((isinstance(node, ast.Assign) and len(node.targets) == 1 and "
+             "isinstance(node.targets[0], ast.Name) for node in branch))")
+ALWAYS_RETURNS_BODY = [
+    "for node in body:\n    if isinstance(node, ast.Return):\n        return True\n"
+    "    if isinstance(node, ast.If) and _always_returns(node.body) and _always_returns(node.orelse):\n        return True",
+    "return False",
+]
+
+
+def _no_doc(fn: ast.FunctionDef):
+    b = fn.body
+    if b and isinstance(b[0], ast.Expr) and isinstance(b[0].value, ast.Constant) and isinstance(b[0].value.value, str):
+        return b[1:]
+    return b
+
+
+def check_branch_dnf(tree) -> list[list[str]]:
+    """`_check_branch(branch, rest)` as the list of its accepting conditions (`if <conjunction>: return`, in order, then
+    `raise`), every conjunct one of the known atoms; `_always_returns` must be the two-clause loop the model's
+    `bodyReturns` is written after.  Anything else is outside the supported subset."""
+    ar = [ast.unparse(x) for x in _no_doc(_fn(tree, "_always_returns"))]
+    if ar != ALWAYS_RETURNS_BODY:
+        raise Unsupported("_always_returns: body differs from the two-clause loop (Return / If with both branches)")
+    dnf = []
+    body = _no_doc(_fn(tree, "_check_branch"))
+    seen_plain = False
+    for st in body[:-1]:
+        if isinstance(st, ast.Assign) and _is_name(st.targets[0], "plain"):
+            if ast.unparse(st.value) != PLAIN_DEF:
+                raise Unsupported(f"_check_branch: plain = {ast.unparse(st.value)}")
+            seen_plain = True
+            continue
+        if isinstance(st, ast.Assign) and _is_name(st.targets[0], "msg"):
+            continue
+        if not (isinstance(st, ast.If) and not st.orelse and len(st.body) == 1 and isinstance(st.body[0], ast.Return)
+                and st.body[0].value is None):
+            raise Unsupported(f"_check_branch: statement {ast.unparse(st)[:60]}")
+        conj = st.test.values if isinstance(st.test, ast.BoolOp) and isinstance(st.test.op, ast.And) else [st.test]
+        atoms = []
+        for c in conj:
+            t = ast.unparse(c)
+            if t not in CB_ATOMS:
+                raise Unsupported(f"_check_branch: condition {t}")
+            if t == "plain" and not seen_plain:
+                raise Unsupported("_check_branch: plain used before its definition")
+            atoms.append(CB_ATOMS[t])
+        dnf.append(atoms)
+    if not isinstance(body[-1], ast.Raise):
+        raise Unsupported("_check_branch: does not end in raise")
+    return dnf
+
+
+def expr_kinds(tree) -> list[str]:
+    """the `ast` classes `_handle_expr` dispatches on (top-level `if isinstance(node, ast.X)` statements), then raise"""
+    fn = _fn(tree, "_handle_expr")
+    out = []
+    body = _no_doc(fn)
+    for st in body:
+        if isinstance(st, ast.If):
+            t = st.test
+            if not (isinstance(t, ast.Call) and _is_name(t.func, "isinstance") and _is_name(t.args[0], "node")) or st.orelse:
+                raise Unsupported(f"_handle_expr: dispatch test {ast.unparse(t)}")
+            if _is_name(t.args[1], "float"):
+                continue  # an ast node is never a float: dead
+            if not (isinstance(t.args[1], ast.Attribute) and _is_name(t.args[1].value, "ast")):
+                raise Unsupported(f"_handle_expr: dispatch test {ast.unparse(t)}")
+            out.append(t.args[1].attr)
+        elif isinstance(st, ast.Assign) and _is_name(st.targets[0], "msg"):
+            continue
+        elif isinstance(st, ast.Raise):
+            return out
+        else:
+            raise Unsupported(f"_handle_expr: statement {ast.unparse(st)[:60]}")
+    raise Unsupported("_handle_expr: does not end in raise")
 
 
 def lstr(s: str) -> str:
@@ -315,7 +508,10 @@ def render(repo: Path) -> str:
     fns = _dict(tree, "KNOWN_FNS")
     consts = _dict(tree, "KNOWN_CONSTANTS")
     sim = subst_simultaneous(tree)
-    tup, refused, (copies, checked, boolean) = body_facts(tree)
+    tup, refused, (copies, checked, boolean, imports_copied), (chain, unpack), imports_strict, stmt_kinds = body_facts(tree)
+    dnf = check_branch_dnf(tree) if checked else []
+    ekinds = expr_kinds(tree)
+    sig = sig_strict(tree)
     b = lambda x: "true" if x else "false"  # noqa: E731
     lines = [
         "-- GENERATED by /verif/translate/c06.py from src/mxlpy/meta/source_tools.py; do not edit",
@@ -333,6 +529,12 @@ def render(repo: Path) -> str:
         ",\n".join(f"  ({lstr(k)}, {lstr(v)})" for k, v in consts),
         "]",
         "",
+        "/-- the `ast` classes `_handle_expr` / the statement loop of `_handle_fn_body` dispatch on; everything else raises -/",
+        "def exprKinds : List String := [" + ", ".join(lstr(k) for k in ekinds) + "]",
+        "def stmtKinds : List String := [" + ", ".join(lstr(k) for k in stmt_kinds) + "]",
+        "/-- `_check_branch`: the accepting conditions (each a conjunction), in source order -/",
+        "def checkBranchAccept : List (List CBAtom) := [" + ", ".join("[" + ", ".join("." + a for a in c) + "]" for c in dnf) + "]",
+        "",
         "def tables : Tables where",
         "  unops := unops",
         "  binops := binops",
@@ -345,6 +547,11 @@ def render(repo: Path) -> str:
         f"  branchCopies := {b(copies)}",
         f"  fallThroughChecked := {b(checked)}",
         f"  testsBoolean := {b(boolean)}",
+        f"  chainAssignAll := {b(chain)}",
+        f"  unpackRefused := {b(unpack)}",
+        f"  importsStrict := {b(imports_strict)}",
+        f"  importsCopied := {b(imports_copied)}",
+        f"  sigStrict := {b(sig)}",
         "",
         "end Mxl.C06.Generated",
         "",
